@@ -46,7 +46,7 @@ func runC19(c *Ctx) {
 	})
 	r.Rule("R19-meta", "a decoded FEN's castling rights and en-passant square are compared with the placement, and the en-passant square with the side to move: some decision in the decoding family depends on both and rejects or repairs", 3)
 	c.guard("R19-meta", func() { c19Meta(c) })
-	r.Rule("R19-homes", "each castling right is validated against its own king and rook home squares (decided on the abstract paths of the validating function, whatever its form)", 1)
+	r.Rule("R19-homes", "each castling right is validated against its own king and rook home squares (decided on the abstract paths of the validating function, whatever its form); a placement without exactly one king per side is rejected", 1+2)
 	c.guard("R19-homes", func() { c19Homes(c, "R19-homes") })
 	r.Rule("R19-dup", "NewPosition's duplicate test sees pieces of both colours (it reads the all-pieces occupancy, or at least does not choose what it reads by the new piece's colour)", 1)
 	c.guard("R19-dup", func() { c19Dup(c, "R19-dup") })
